@@ -1,7 +1,7 @@
 SPECIFICATION Spec
 CONSTANTS
-  GapSet = {"sp", "nl", "cmt"}
-  ObjForms = {"o.spec", "o.lang"}
+  GapSet = {"sp", "nl", "tab"}
+  ObjForms = {"o.spec"}
   SubjForms = {"s.pn"}
 INVARIANT GeneratorLemma
 INVARIANT C07Design
